@@ -21,7 +21,12 @@ TRUSTED = ["numpy cumsum / fancy indexing / nanmean and xarray.apply_ufunc(vecto
 ASSUMPTIONS = ["field values and thresholds are small dyadic numbers / NaN / inf, so comparisons are exact; window counts are "
                "integers (exact in float64 far beyond the sizes used); quotients compared to 1e-9",
                "fcst and obs carry the same coordinate labels in the same stored order (F13 belongs to C04); no dask inputs",
-               "float rounding, overflow and signed zero are not modelled"]
+               "float rounding, overflow and signed zero are not modelled",
+               "storage dtypes: the fields are also stored as int64 / int32 / int16 / int8 / bool / float32 (uint8 / uint16 in "
+               "separately tagged batches) holding only values the dtype represents exactly (NaN / inf in float storage only); "
+               "the model and the spec work on the exact values of the stored numbers, so the expected score does not depend on "
+               "the storage dtype; thresholds stay float64 numbers the dtype mostly cannot represent (0.5, 2.5, 0.1, 1+2^-30, "
+               "out-of-range for int8 / uint8), passed as Python float (default), np.float64, Python int or np.float32"]
 MANIFEST = dict(
     level="proof",
     text="Kernel-checked Lean theorems, for all field shapes and windows, about a model of the FSS pipeline whose scalar tails "
@@ -33,19 +38,30 @@ MANIFEST = dict(
          "thresholding, and several fields aggregate by the pooled (mean) three sums with a 2-field example differing from the mean of "
          "scores.  The padded clause of the property holds for even window dimensions (fss_pad_partial) and fails for odd ones "
          "(fss_pad_counterexample, known finding F5).  Tied to the code by the translator plus an exhaustive/random correspondence on "
-         "scores, images and components, and an independent direct-count oracle (Lean Spec) on fss_2d_single_field / fss_2d / fss_2d_binary.",
+         "scores, images and components, and an independent direct-count oracle (Lean Spec) on fss_2d_single_field / fss_2d / fss_2d_binary.  "
+         "Both ties also run with the fields stored as int64 / int32 / int16 / int8 / bool / float32 / uint8 / uint16 (fcst and obs "
+         "also in different dtypes) against thresholds the dtype cannot represent, with 0/1 fields of every dtype through "
+         "fss_2d_binary(check_boolean=False), and with more events than a narrow dtype can count; expected values come from the exact "
+         "stored values, and the same values stored as float64 must give the same result.",
     note="Trusted: Lean kernel; propext/Classical.choice/Quot.sound; py2lean + tools/gen/Fss.py; SV.Fl; the hand model of numpy cumsum / "
          "clip / fancy indexing / nanmean and of xarray.apply_ufunc(vectorize) + gather_dimensions (compared, not proved); harness "
          "tolerance 1e-9 on dyadic inputs.  Not modelled: dask inputs, differently ordered coordinates (F13, C04), non-boolean input of "
          "fss_2d_binary(check_boolean=False), float rounding.  Known finding F5 (odd window + zero padding) is reported as KNOWN-FINDING, "
-         "only when the implementation equals the direct count with the code's asymmetric extension.",
+         "only when the implementation equals the direct count with the code's asymmetric extension.  Known findings F-C16b (a "
+         "Python-float threshold is rounded to float32 before the comparison with a float32 field; recognised only when the "
+         "implementation equals the direct count on the events of the rounded threshold; the model tie passes np.float64 thresholds "
+         "there) and F-C16a (fss_2d_binary(check_boolean=False) accumulates window counts in float16 storage; > 2048 events).",
     technique="Lean 4 theorems over a hand model + translator-regenerated scalar tails; exhaustive small-shape differential correspondence; "
               "exact direct-count oracle",
     design="6/C16")
 RULE = ("exhaustive over all shapes up to 3x4 (quick) / 4x4 (thorough) x all windows x both paddings with several field pairs "
         "each, all binary fields of shapes up to 3x3 (thorough; 2x3 quick), random shapes up to 7x9, four operators, NaN cells, "
-        "multi-field arrays with extra dims and every reduction; distinct = distinct canonical case; non-trivial = at least "
-        "one event in either field")
+        "multi-field arrays with extra dims and every reduction; storage dtypes int64 / int32 / int16 / int8 / bool / float32 "
+        "(uint8 / uint16 as separate '-unsigned' batches): per dtype every shape up to 3x3 x every window x both paddings with "
+        "the four operators and the non-representable thresholds in rotation, ALL two-valued fields around such a threshold "
+        "for shapes up to 2x2, random shapes up to 6x7, fcst/obs in different dtypes, multi-field arrays through fss_2d / "
+        "fss_2d_binary (bool and 0/1 in other dtypes), dense fields with more events than int8 / uint8 / float16 can count; "
+        "distinct = distinct canonical case; non-trivial = at least one event in either field")
 
 OPS = {"gt": np.greater, "ge": np.greater_equal, "lt": np.less, "le": np.less_equal}
 F5_TAGS = {"defect": "F5", "zero_padding": True, "odd_window": True}
@@ -78,12 +94,46 @@ def case_json(c):
     return d
 
 
-def impl_single(c):
-    from scores.spatial import fss_2d_single_field
+def store(a, dt):
+    """the array of the listed VALUES stored as dtype `dt` (None = float64).  The values must be exactly representable
+    in `dt` (the generator's job): the stored numbers ARE the listed numbers, so every expected value (Lean model / spec
+    on the exact values) is independent of the storage dtype."""
+    a = np.array(a, dtype=float)
+    if dt in (None, "float64"):
+        return a
+    if np.dtype(dt).kind != "f" and not np.all(np.isfinite(a)):
+        raise AssertionError("harness: NaN/inf in non-float storage " + str(dt))
     with np.errstate(all="ignore"), warnings.catch_warnings():
         warnings.simplefilter("ignore")
-        return float(fss_2d_single_field(np.array(c["f"], dtype=float), np.array(c["o"], dtype=float),
-                                         event_threshold=c["thr"], window_size=(c["h"], c["w"]),
+        b = a.astype(dt)
+        back = b.astype(float)
+    if not np.array_equal(back, a, equal_nan=True):
+        raise AssertionError("harness: values not representable in " + str(dt))
+    return b
+
+
+def thr_arg(c):
+    """the event threshold as passed to the library: a Python float unless the case asks for another scalar type"""
+    t, thr = c.get("thrtype"), float(c["thr"])
+    if t == "np64":
+        return np.float64(thr)
+    if t == "int" and thr.is_integer():
+        return int(thr)
+    if t == "np32" and float(np.float32(thr)) == thr:
+        return np.float32(thr)
+    return thr
+
+
+def has_dtype(c):
+    return any(c.get(k) not in (None, "float64") for k in ("dtf", "dto", "bdt"))
+
+
+def impl_single(c):
+    from scores.spatial import fss_2d_single_field
+    f, o = store(c["f"], c.get("dtf")), store(c["o"], c.get("dto"))
+    with np.errstate(all="ignore"), warnings.catch_warnings():
+        warnings.simplefilter("ignore")
+        return float(fss_2d_single_field(f, o, event_threshold=thr_arg(c), window_size=(c["h"], c["w"]),
                                          zero_padding=c["pad"], threshold_operator=OPS[c["op"]]))
 
 
@@ -92,7 +142,7 @@ def impl_internals(c):
     try:
         from scores.fast.fss.fss_numpy import FssNumpy
         from scores.utils import NumpyThresholdOperator
-        b = FssNumpy(np.array(c["f"], dtype=float), np.array(c["o"], dtype=float), event_threshold=c["thr"],
+        b = FssNumpy(store(c["f"], c.get("dtf")), store(c["o"], c.get("dto")), event_threshold=thr_arg(c),
                      window_size=(c["h"], c["w"]), zero_padding=c["pad"],
                      threshold_operator=NumpyThresholdOperator(OPS[c["op"]]))
         with np.errstate(all="ignore"):
@@ -238,11 +288,280 @@ def binary_stream(ctx):
     return out
 
 
+# ----------------------------------------------------------------------------- storage dtypes of the fields (input class)
+# The same labelled VALUES are stored as int64 / int32 / int16 / int8 / bool / float32 (and, in separately tagged batches,
+# uint8 / uint16) — only values the dtype represents exactly, NaN / inf only in float storage — against float64
+# thresholds the dtype cannot represent (0.5, 2.5 for integers and bool; 0.1, 0.7, 1+2^-30 for float32; out-of-range
+# numbers for int8 / uint8).  Every small integer / float32 IS a float64, so `value <op> threshold` has one truth value:
+# the one the Lean spec computes on the exact rationals.
+SIGNED_DT = ["int64", "int32", "int16", "int8", "bool", "float32"]
+UNSIGNED_DT = ["uint8", "uint16"]
+
+
+def f32(x):
+    return float(np.float32(x))
+
+
+def dt_pool(dt):
+    if dt == "bool":
+        return [0.0, 1.0]
+    if dt == "float32":
+        return VALS + [f32(0.1), f32(0.3), f32(0.7)]
+    if dt == "uint8":
+        return [0.0, 1.0, 2.0, 3.0, 4.0, 255.0]
+    if dt == "uint16":
+        return [0.0, 1.0, 2.0, 3.0, 4.0, 255.0, 256.0, 65535.0]
+    if dt == "int8":
+        return [-2.0, -1.0, 0.0, 1.0, 2.0, 3.0, 127.0, -128.0]
+    return [-2.0, -1.0, 0.0, 1.0, 2.0, 3.0]
+
+
+def dt_thrs(dt):
+    """(thresholds the dtype cannot represent, thresholds it can)"""
+    if dt == "bool":
+        return [0.5, 0.5, 2.5, -0.5, 1.5], [0.0, 1.0]
+    if dt == "float32":
+        return [0.1, 0.7, 0.3, 1.0 + 2.0 ** -30, 0.1, 0.7], [0.5, 2.5, f32(0.1), 1.0]
+    if dt == "uint8":
+        return [0.5, 2.5, 0.5, 2.5, -0.5, -1.0, 255.5, 256.0, 254.5], [0.0, 1.0, 255.0]
+    if dt == "uint16":
+        return [0.5, 2.5, 0.5, 2.5, -0.5, -1.0, 65535.5, 65536.0, 255.5], [0.0, 1.0, 256.0]
+    if dt == "int8":
+        return [0.5, 2.5, 0.5, 2.5, 1.5, -0.5, 127.5, -128.5, 128.0, 200.5, -129.0], [0.0, 1.0, 2.0, -1.0]
+    return [0.5, 2.5, 0.5, 2.5, 1.5, -0.5], [0.0, 1.0, 2.0, -1.0]
+
+
+def dt_near(thr, dt):
+    """the numbers of the dtype next to the threshold (below, [equal], above)"""
+    if dt == "bool":
+        return [0.0, 1.0]
+    if dt == "float32":
+        c = np.float32(thr)
+        return sorted({float(np.nextafter(c, np.float32(-np.inf))), float(c), float(np.nextafter(c, np.float32(np.inf)))})
+    info = np.iinfo(dt)
+    lo, hi = math.floor(thr), math.ceil(thr)
+    cand = [lo, hi] if lo != hi else [lo - 1, lo, lo + 1]
+    out = sorted({float(min(max(v, info.min), info.max)) for v in cand})
+    return out
+
+
+def representable(thr, dt):
+    if dt == "bool":
+        return thr in (0.0, 1.0)
+    if dt == "float32":
+        return f32(thr) == thr
+    info = np.iinfo(dt)
+    return float(thr).is_integer() and info.min <= thr <= info.max
+
+
+def gen_dtype_field(rng, H, W, thr, dt):
+    pool = dt_pool(dt)
+    near = dt_near(thr, dt)
+    lo, hi = near[0], near[-1]
+    style = rng.choice(["pool", "pool", "near", "sparse", "dense", "binary"])
+    if style == "pool":
+        a = np.array([[rng.choice(pool + near) for _ in range(W)] for _ in range(H)])
+    elif style == "near":
+        a = np.array([[rng.choice(near) for _ in range(W)] for _ in range(H)])
+    elif style == "sparse":
+        a = np.full((H, W), lo)
+        for _ in range(rng.randint(1, 2)):
+            a[rng.randrange(H), rng.randrange(W)] = hi
+    elif style == "dense":
+        a = np.full((H, W), hi)
+        for _ in range(rng.randint(1, 2)):
+            a[rng.randrange(H), rng.randrange(W)] = lo
+    else:
+        a = np.array([[float(rng.random() < 0.5) for _ in range(W)] for _ in range(H)])
+    if np.dtype(dt).kind == "f":
+        r = rng.random()
+        if r < 0.20:
+            for _ in range(rng.randint(1, max(1, H * W // 3))):
+                a[rng.randrange(H), rng.randrange(W)] = np.nan
+        elif r < 0.25:
+            a[rng.randrange(H), rng.randrange(W)] = rng.choice([np.inf, -np.inf])
+    return a
+
+
+def other_dtype(rng, values, dt, unsigned):
+    """a different storage dtype for the partner field that represents its values exactly (else the same dtype)"""
+    cand = rng.choice((UNSIGNED_DT + ["int64", "float64", "float32"]) if unsigned else (SIGNED_DT + ["float64"]))
+    try:
+        store(values, cand)
+    except AssertionError:
+        return dt
+    return cand
+
+
+def gen_in_dtype(rng, H, W, thr, dt):
+    return gen_field(rng, H, W, thr) if dt == "float64" else gen_dtype_field(rng, H, W, thr, dt)
+
+
+def alt_dtype(rng, unsigned):
+    """an unrelated storage dtype for ONE of the two fields (its values come from that dtype's own pool: fractional
+    numbers / NaN for float64, negative numbers next to an unsigned partner ...)"""
+    return rng.choice((UNSIGNED_DT if unsigned else SIGNED_DT) + ["float64", "float64", "int64"])
+
+
+def gen_dtype_single(rng, H, W, h, w, pad, dt, op=None, thr=None, unsigned=False):
+    non, rep = dt_thrs(dt)
+    if thr is None:
+        thr = rng.choice(non) if rng.random() < 0.7 else rng.choice(rep)
+    dtf = dto = dt
+    if rng.random() < 0.3:
+        if rng.random() < 0.5:
+            dtf = alt_dtype(rng, unsigned)
+        else:
+            dto = alt_dtype(rng, unsigned)
+    f = gen_in_dtype(rng, H, W, thr, dtf)
+    r = rng.random()
+    if dtf != dto or r >= 0.55:
+        o = gen_in_dtype(rng, H, W, thr, dto)
+    elif r < 0.25:
+        o = f.copy()
+    elif r < 0.45:
+        o = f.copy()
+        for _ in range(rng.randint(1, 2)):
+            o[rng.randrange(H), rng.randrange(W)] = rng.choice(dt_pool(dt))
+    else:
+        o = f[::-1, ::-1].copy()
+    if dtf == dto and rng.random() < 0.2:
+        dto = other_dtype(rng, o, dt, unsigned)       # the same kind of values, losslessly stored in another dtype
+        if rng.random() < 0.5:
+            f, o, dtf, dto = o, f, dto, dtf
+    c = dict(kind="single", f=f.tolist(), o=o.tolist(), thr=thr, op=op or rng.choice(list(OPS)), h=h, w=w, pad=pad,
+             dtf=dtf, dto=dto)
+    r = rng.random()
+    if r < 0.15:
+        c["thrtype"] = "np64"
+    elif r < 0.30 and float(thr).is_integer():
+        c["thrtype"] = "int"
+    elif r < 0.35 and f32(thr) == thr:
+        c["thrtype"] = "np32"
+    if unsigned:
+        c["unsigned"] = True
+    return c
+
+
+def dtype_stream(ctx, dts, per_config, n_random, unsigned=False, boost=False):
+    """every shape up to 3x3 x every window (down to 1x1) x both paddings per dtype, the four operators and the
+    non-representable thresholds in rotation; then random shapes up to 6x7"""
+    rng = ctx.rng
+    cases = []
+    k = 0
+    for dt in dts:
+        non = dt_thrs(dt)[0]
+        for (H, W, h, w, pad) in configs(3, 3):
+            for _ in range(per_config):
+                cases.append(gen_dtype_single(rng, H, W, h, w, pad, dt, op=list(OPS)[k % 4], thr=non[(k // 4) % len(non)],
+                                              unsigned=unsigned))
+                k += 1
+    for _ in range(n_random * (5 if boost else 1)):
+        H = rng.randint(1, 6)
+        W = rng.randint(1, 7)
+        h = rng.choice([1, H, rng.randint(1, H), rng.randint(1, H)])
+        w = rng.choice([1, W, rng.randint(1, W), rng.randint(1, W)])
+        if rng.random() < 0.4:
+            h = 2 * rng.randint(1, H // 2) if H >= 2 else h
+            w = 2 * rng.randint(1, W // 2) if W >= 2 else w
+        cases.append(gen_dtype_single(rng, H, W, h, w, rng.random() < 0.5, rng.choice(dts), unsigned=unsigned))
+    return cases
+
+
+def dtype_exhaustive(ctx, dts, unsigned=False):
+    """ALL fields over the two numbers of the dtype next to the threshold (0.5: {0,1}; 2.5: {2,3}; float32 0.1: its two
+    float32 neighbours ...) of shapes 1x1, 1x2, 2x1, 1x3, 2x2 x all windows x both paddings, the operators in rotation
+    (every field meets all four); partner = complement / shifted / all-high / the field itself"""
+    out = []
+    shapes = [(1, 1), (1, 2), (2, 1), (1, 3), (2, 2)]
+    for dt in dts:
+        thrs = {"float32": [0.1, 0.7], "bool": [0.5]}.get(dt, [0.5, 2.5])
+        for thr in thrs:
+            near = dt_near(thr, dt)
+            lo, hi = max(v for v in near if v < thr), min(v for v in near if v > thr)     # the two numbers of dt bracketing thr
+            k = 0
+            for (H, W) in shapes:
+                for i, bits in enumerate(itertools.product((0, 1), repeat=H * W)):
+                    b = np.array(bits).reshape(H, W)
+                    f = np.where(b == 1, hi, lo)
+                    pb = [1 - b, np.roll(b, 1, axis=1), np.ones((H, W), dtype=int), b][i % 4]
+                    o = np.where(pb == 1, hi, lo)
+                    for h in range(1, H + 1):
+                        for w in range(1, W + 1):
+                            for pad in (False, True):
+                                c = dict(kind="single", f=f.tolist(), o=o.tolist(), thr=thr, op=list(OPS)[k % 4], h=h, w=w,
+                                         pad=pad, dtf=dt, dto=dt)
+                                if unsigned:
+                                    c["unsigned"] = True
+                                out.append(c)
+                                k += 1
+    ctx.exhaustive.append(f"storage dtypes {', '.join(dts)}: all two-valued fields around a threshold the dtype cannot represent, "
+                          f"shapes 1x1..2x2 x all windows x both paddings ({len(out)} cases)")
+    return out
+
+
+def dtype_tags(ctx, c):
+    for k in ("dtf", "dto", "bdt"):
+        if c.get(k) is not None:
+            ctx.tag(f"{k}:{c[k]}")
+    dts = [c.get(k) for k in ("dtf", "dto") if c.get(k) not in (None, "float64")]
+    if dts and "thr" in c and any(not representable(float(c["thr"]), d) for d in dts):
+        ctx.tag("threshold-not-representable-in-field-dtype")
+    if c.get("dtf") != c.get("dto"):
+        ctx.tag("fcst-obs-stored-in-different-dtypes")
+    if c.get("thrtype"):
+        ctx.tag("threshold-passed-as:" + c["thrtype"])
+
+
+def dtype_fail_tags(c):
+    t = {k: c[k] for k in ("dtf", "dto", "bdt") if c.get(k) is not None}
+    if c.get("unsigned"):
+        t["storage"] = "unsigned"
+    return t
+
+
+def as_float64(c):
+    d = {k: v for k, v in c.items() if k not in ("dtf", "dto", "bdt", "thrtype")}
+    return d
+
+
+# ---- defect F-C16b of the unchanged code (NumPy >= 2, NEP 50): `_op(self.fcst, self.event_threshold)` with a Python-float
+# threshold is a comparison with a "weak" scalar: against a float32 (float16) array the threshold is first ROUNDED to that
+# dtype.  A float32 field therefore gets other events than the same values stored as float64 whenever a cell lies between
+# the threshold and its float32 rounding (e.g. the cell float32(0.1) = 0.100000001490116 and the threshold 0.1), and
+# passing np.float64(0.1) instead of 0.1 changes the score.  Classified as this finding ONLY when the implementation equals
+# the exact window-count spec on the events obtained with the threshold rounded to each field's own narrow float dtype.
+WEAK_TAGS = {"defect": "F-C16b", "field_storage": "float32", "threshold": "python-float-not-representable-in-float32"}
+WEAK_SITE = "_apply_event_threshold"
+WEAK_SIG = "python-float-threshold-rounded-to-field-dtype"
+
+
+def narrow_float(dt):
+    return dt in ("float32", "float16")
+
+
+def weak_applies(c):
+    if c.get("binary"):
+        return False
+    thr = float(c["thr"])
+    if c.get("thrtype") in ("np64", "np32") or (c.get("thrtype") == "int" and thr.is_integer()):
+        return False
+    return any(narrow_float(c.get(k)) and float(np.dtype(c[k]).type(thr)) != thr for k in ("dtf", "dto"))
+
+
+def weak_events(values, dt, thr, op):
+    """the 0/1 event field numpy computes for `op(values stored as dt, <Python float> thr)`"""
+    t = float(np.dtype(dt).type(thr)) if narrow_float(dt) else float(thr)
+    with np.errstate(all="ignore"):
+        return OPS[op](np.array(values, dtype=float), t).astype(float)
+
+
 EXTRA = ["t", "lead", "m"]
 
 
-def gen_multi(rng, binary=False):
-    """a case for fss_2d / fss_2d_binary: extra dims, broadcasting between fcst and obs, a reduction request"""
+def gen_multi(rng, binary=False, dt=None, unsigned=False):
+    """a case for fss_2d / fss_2d_binary: extra dims, broadcasting between fcst and obs, a reduction request.
+    dt: storage dtype of the fields (values drawn representable in it; thresholds mostly not representable)"""
     H = rng.randint(1, 4)
     W = rng.randint(1, 4)
     h = rng.randint(1, H)
@@ -254,19 +573,33 @@ def gen_multi(rng, binary=False):
     thr = rng.choice(THRS)
     if binary:
         thr = 0.5
+    elif dt is not None:
+        non, repres = dt_thrs(dt)
+        thr = rng.choice(non) if rng.random() < 0.7 else rng.choice(repres)
 
-    def build(dims):
+    fdt = odt = dt
+    if dt is not None and not binary and rng.random() < 0.35:
+        if rng.random() < 0.5:
+            fdt = alt_dtype(rng, unsigned)
+        else:
+            odt = alt_dtype(rng, unsigned)
+
+    def build(dims, sdt=None):
         shape = [sizes[d] for d in dims] + [H, W]
         n = int(np.prod(shape[:-2])) if dims else 1
-        fl = [gen_field(rng, H, W, thr, style="binary" if binary else None) for _ in range(n)]
+        if sdt is not None and not binary:
+            fl = [gen_in_dtype(rng, H, W, thr, sdt) for _ in range(n)]
+        else:
+            fl = [gen_field(rng, H, W, thr, style="binary" if binary else None) for _ in range(n)]
         if binary:
             fl = [np.nan_to_num(x, nan=0.0, posinf=1.0, neginf=0.0) for x in fl]
         return np.array(fl).reshape(shape)
 
-    fa = build(fd)
-    oa = build(od)
+    fa = build(fd, fdt)
+    oa = build(od, odt)
     if fd == od and rng.random() < 0.3:
         oa = fa.copy()
+        odt = fdt
     # stored dimension order: spatial dims anywhere
     f_order = fd + ["y", "x"]
     o_order = od + ["y", "x"]
@@ -284,11 +617,30 @@ def gen_multi(rng, binary=False):
             mode, req = "none", None       # an empty reduce list: covered below as its own mode
     elif mode == "preserve":
         req = rng.sample(extras, rng.randint(0, len(extras))) if extras else []
-    return dict(kind="multi", binary=binary, H=H, W=W, h=h, w=w, pad=rng.random() < 0.5, thr=thr,
-                op="gt" if binary else rng.choice(list(OPS)), sizes=sizes, fdims=f_order, odims=o_order,
-                fdata=np.transpose(fa, [(fd + ["y", "x"]).index(d) for d in f_order]).tolist(),
-                odata=np.transpose(oa, [(od + ["y", "x"]).index(d) for d in o_order]).tolist(),
-                mode=mode, req=req)
+    c = dict(kind="multi", binary=binary, H=H, W=W, h=h, w=w, pad=rng.random() < 0.5, thr=thr,
+             op="gt" if binary else rng.choice(list(OPS)), sizes=sizes, fdims=f_order, odims=o_order,
+             fdata=np.transpose(fa, [(fd + ["y", "x"]).index(d) for d in f_order]).tolist(),
+             odata=np.transpose(oa, [(od + ["y", "x"]).index(d) for d in o_order]).tolist(),
+             mode=mode, req=req)
+    if dt is not None:
+        # binary entry point: bool (check_boolean=True) or 0/1 stored in another dtype (check_boolean=False, documented to
+        # "give the same results"); the thresholding entry point: fields stored as dt, sometimes obs in another dtype
+        bchoices = ["bool"] + UNSIGNED_DT if unsigned else ["bool", "bool", "int8", "int64", "int32", "float32"]
+        if binary:
+            c["bdt"] = dt if rng.random() < 0.6 else rng.choice(bchoices)
+        else:
+            c["dtf"], c["dto"] = fdt, odt
+            if fdt == odt and rng.random() < 0.15:
+                c["dto"] = other_dtype(rng, oa, odt, unsigned)      # the same values, losslessly stored in another dtype
+            c["bdt"] = rng.choice(bchoices)      # used by the binary-entry-equals-thresholding relation
+            r = rng.random()
+            if r < 0.15:
+                c["thrtype"] = "np64"
+            elif r < 0.30 and float(thr).is_integer():
+                c["thrtype"] = "int"
+        if unsigned:
+            c["unsigned"] = True
+    return c
 
 
 def multi_reduce_set(c):
@@ -339,12 +691,22 @@ def impl_multi(c, fx, ox):
     elif c["mode"] == "preserve_all":
         kw["preserve_dims"] = "all"
     sd = ("".join(["y"]), "".join(["", "x"]))
+
+    def stored(x, dt):
+        return x if dt in (None, "float64") else xr.DataArray(store(x.values, dt), dims=x.dims)
+
+    if c["binary"]:
+        bdt = c.get("bdt") or "bool"
+        fb, ob = (fx.astype(bool), ox.astype(bool)) if bdt == "bool" else (stored(fx, bdt), stored(ox, bdt))
+        if bdt != "bool":
+            kw["check_boolean"] = False
+    else:
+        fs, os_ = stored(fx, c.get("dtf")), stored(ox, c.get("dto"))
     with np.errstate(all="ignore"), warnings.catch_warnings():
         warnings.simplefilter("ignore")
         if c["binary"]:
-            return fss_2d_binary(fx.astype(bool), ox.astype(bool), window_size=(c["h"], c["w"]), spatial_dims=sd,
-                                 zero_padding=c["pad"], **kw)
-        return fss_2d(fx, ox, event_threshold=c["thr"], window_size=(c["h"], c["w"]), spatial_dims=sd,
+            return fss_2d_binary(fb, ob, window_size=(c["h"], c["w"]), spatial_dims=sd, zero_padding=c["pad"], **kw)
+        return fss_2d(fs, os_, event_threshold=thr_arg(c), window_size=(c["h"], c["w"]), spatial_dims=sd,
                       zero_padding=c["pad"], threshold_operator=OPS[c["op"]], **kw)
 
 
@@ -354,11 +716,18 @@ def correspondence(ctx):
     cases = single_stream(ctx, per, ctx.n(400, 3000))
     ctx.exhaustive.append(f"all shapes <= {'4x4' if ctx.thorough else '3x4'} x all windows x both paddings x {per} field pairs")
     cases += binary_stream(ctx)
+    # storage dtypes: the model works on the exact values, the implementation on the stored arrays
+    cases += dtype_stream(ctx, SIGNED_DT, 1, ctx.n(150, 1500))
+    cases += dtype_stream(ctx, UNSIGNED_DT, 1, ctx.n(50, 500), unsigned=True)
+    for c in cases:
+        if weak_applies(c):
+            c["thrtype"] = "np64"        # tie X on float32 storage: threshold passed as np.float64 (see WEAK_* / F-C16b)
     ops = [model_op(c, img=True) for c in cases]
     res = core.run_driver("C16", ops)
     internals_missing = 0
     for c, m in zip(cases, res):
-        batch = "impl-vs-model-single"
+        batch = "impl-vs-model-single" + ("-unsigned" if c.get("unsigned") else "-dtype" if has_dtype(c) else "")
+        dtype_tags(ctx, c)
         nt = n_events(c, c["f"]) + n_events(c, c["o"]) > 0
         ctx.case(batch, case_json(c), nontrivial=nt)
         ctx.tag("pad" if c["pad"] else "nopad")
@@ -369,7 +738,7 @@ def correspondence(ctx):
             ctx.fail(batch, "correspondence", "fss_2d_single_field", "exception", case_json(c), observed=core.exc_class(ex),
                      expected=m.get("single"))
             continue
-        tags = {"pad": c["pad"], "op": c["op"]}
+        tags = dict(dtype_fail_tags(c), pad=c["pad"], op=c["op"])
         if "err" in m or not core.close(v, m["single"][0]):
             ctx.fail(batch, "correspondence", "fss_2d_single_field", "value", case_json(c), observed=v, expected=m, tags=tags)
             continue
@@ -392,6 +761,10 @@ def correspondence(ctx):
     # multi-field arrays: fss_2d / fss_2d_binary vs model aggregate
     mcases = [gen_multi(ctx.rng, binary=(i % 4 == 3)) for i in range(ctx.n(150, 1200))]
     run_multi(ctx, mcases, "impl-vs-model-multi", "correspondence")
+    mcases = [gen_multi(ctx.rng, binary=(i % 4 == 3), dt=SIGNED_DT[i % len(SIGNED_DT)]) for i in range(ctx.n(90, 900))]
+    run_multi(ctx, mcases, "impl-vs-model-multi-dtype", "correspondence")
+    mcases = [gen_multi(ctx.rng, binary=(i % 4 == 3), dt=UNSIGNED_DT[i % 2], unsigned=True) for i in range(ctx.n(30, 300))]
+    run_multi(ctx, mcases, "impl-vs-model-multi-unsigned", "correspondence")
 
     # malformed stream: windows that do not fit / are empty must raise a ValueError (DimensionError), as the model says
     from scores.spatial import fss_2d_single_field
@@ -420,54 +793,84 @@ def run_multi(ctx, mcases, batch, kind):
     prepared = []
     ops = []
     for c in mcases:
+        if kind == "correspondence" and weak_applies(c):
+            c["thrtype"] = "np64"        # tie X on float32 storage: threshold passed as np.float64 (see WEAK_* / F-C16b)
         fx, ox, keep, red, groups = multi_groups(c)
-        prepared.append((c, fx, ox, keep, red, groups))
+        idx = {}
         for kidx, lst in groups.items():
+            e = {}
             if kind == "correspondence":
+                e["spec"] = len(ops)
                 ops.append(model_op(c, fields=lst, scalar=(len(red) == 0), op="left_identity" if c["binary"] else None))
             else:
                 o, t = ("gt", 0.5) if c["binary"] else (c["op"], c["thr"])
+                e["spec"] = len(ops)
                 ops.append(spec_op(c, prop_ext(c), fields=lst, op=o, thr=t))
                 if odd_pad(c):
+                    e["code"] = len(ops)
                     ops.append(spec_op(c, "code", fields=lst, op=o, thr=t))
+                if not c["binary"] and weak_applies(c):
+                    wl = [(weak_events(f2, c.get("dtf"), c["thr"], c["op"]), weak_events(o2, c.get("dto"), c["thr"], c["op"]))
+                          for f2, o2 in lst]
+                    e["weak"] = len(ops)
+                    ops.append(spec_op(c, prop_ext(c), fields=wl, op="gt", thr=0.5))
+                    if odd_pad(c):
+                        e["weakcode"] = len(ops)
+                        ops.append(spec_op(c, "code", fields=wl, op="gt", thr=0.5))
+            idx[kidx] = e
+        prepared.append((c, fx, ox, keep, red, groups, idx))
     res = core.run_driver("C16", ops)
-    k = 0
-    for (c, fx, ox, keep, red, groups) in prepared:
+    for (c, fx, ox, keep, red, groups, idx) in prepared:
         cj = {kk: vv for kk, vv in c.items()}
         ctx.case(batch, cj, nontrivial=True)
         ctx.tag("multi-" + c["mode"])
+        dtype_tags(ctx, c)
+        dtags = dtype_fail_tags(c)
         site = "fss_2d_binary" if c["binary"] else "fss_2d"
         try:
             r = impl_multi(c, fx, ox)
         except Exception as ex:
-            ctx.fail(batch, kind, site, "exception", cj, observed=core.exc_class(ex) + ": " + str(ex)[:200], expected="a value")
-            k += len(groups) * (2 if (kind == "property" and odd_pad(c)) else 1)
+            ctx.fail(batch, kind, site, "exception", cj, observed=core.exc_class(ex) + ": " + str(ex)[:200], expected="a value",
+                     tags=dtags)
             continue
         if set(r.dims) != set(keep):
-            ctx.fail(batch, kind, site, "dims", cj, observed=list(r.dims), expected=keep, tags={"mode": c["mode"]})
-            k += len(groups) * (2 if (kind == "property" and odd_pad(c)) else 1)
+            ctx.fail(batch, kind, site, "dims", cj, observed=list(r.dims), expected=keep, tags=dict(dtags, mode=c["mode"]))
             continue
         r = r.transpose(*keep)
-        bad_val, bad_f5 = None, None
+        bad_val, bad_f5, bad_weak = None, None, None
         for kidx in groups:
             v = float(r.values[kidx]) if keep else float(r.values)
-            m = res[k]
-            k += 1
-            mcode = None
-            if kind == "property" and odd_pad(c):
-                mcode = res[k]
-                k += 1
-            if not core.close(v, m["agg"]):
-                if mcode is not None and core.close(v, mcode["agg"]):
-                    bad_f5 = bad_f5 or (kidx, v, m["agg"])
-                else:
-                    bad_val = bad_val or (kidx, v, m["agg"])
+            e = idx[kidx]
+            m = res[e["spec"]]
+            if core.close(v, m["agg"]):
+                continue
+            if "code" in e and core.close(v, res[e["code"]]["agg"]):
+                bad_f5 = bad_f5 or (kidx, v, m["agg"])
+            elif "weak" in e and (core.close(v, res[e["weak"]]["agg"]) or ("weakcode" in e and core.close(v, res[e["weakcode"]]["agg"]))):
+                bad_weak = bad_weak or (kidx, v, m["agg"])
+            else:
+                bad_val = bad_val or (kidx, v, m["agg"])
         if bad_val:
             ctx.fail(batch, kind, site, "value", cj, observed={"index": list(bad_val[0]), "value": bad_val[1]},
-                     expected=bad_val[2], tags={"mode": c["mode"], "pad": c["pad"]})
+                     expected=bad_val[2], tags=dict(dtags, mode=c["mode"], pad=c["pad"]))
+        elif bad_weak:
+            ctx.fail(batch, kind, WEAK_SITE, WEAK_SIG, cj, observed={"index": list(bad_weak[0]), "value": bad_weak[1]},
+                     expected=bad_weak[2], tags=dict(dtags, **dict(WEAK_TAGS, entry=site)))
         elif bad_f5:
             ctx.fail(batch, kind, F5_SITE, F5_SIG, cj, observed={"index": list(bad_f5[0]), "value": bad_f5[1]},
-                     expected=bad_f5[2], tags=dict(F5_TAGS, entry=site))
+                     expected=bad_f5[2], tags=dict(dtags, **dict(F5_TAGS, entry=site)))
+        elif kind == "property" and (has_dtype(c) or c.get("thrtype")):
+            # every value is the expected one: the same values stored as float64 (bool for the binary entry point; the
+            # threshold as a Python float) give the same result, element for element
+            try:
+                r64 = impl_multi(as_float64(c), fx, ox).transpose(*keep)
+                a, b = np.asarray(r.values, dtype=float).ravel(), np.asarray(r64.values, dtype=float).ravel()
+                if a.shape != b.shape or not all(core.close_ff(x, y) for x, y in zip(a, b)):
+                    ctx.fail(batch, kind, site, "storage-dtype-changes-result", cj, observed=a.tolist(), expected=b.tolist(),
+                             tags=dict(dtags, mode=c["mode"], pad=c["pad"]))
+            except Exception as ex:
+                ctx.fail(batch, kind, site, "exception", cj, observed=core.exc_class(ex) + ": " + str(ex)[:200],
+                         expected="a value (float64 storage)", tags=dtags)
 
 
 # ----------------------------------------------------------------------------- the property oracle
@@ -484,9 +887,13 @@ def flipped(c, how):
         d["h"], d["w"] = c["w"], c["h"]
     elif how == "swap":
         d["f"], d["o"] = c["o"], c["f"]
+        if "dtf" in c or "dto" in c:
+            d["dtf"], d["dto"] = c.get("dto"), c.get("dtf")
     elif how == "nan-to-nonevent":
         # a NaN cell is a non-event: replacing it by a value that is no event changes nothing
         non = {"gt": c["thr"] - 1.0, "ge": c["thr"] - 1.0, "lt": c["thr"] + 1.0, "le": c["thr"] + 1.0}[c["op"]]
+        if has_dtype(c):
+            non = f32(non)        # NaN occurs in float storage only; the replacement must be a float32 number as well
         d["f"] = np.where(np.isnan(f), non, f).tolist()
         d["o"] = np.where(np.isnan(o), non, o).tolist()
     return d
@@ -505,6 +912,13 @@ def check_singles(ctx, cases, batch="single-vs-window-count", relations=True):
         if odd_pad(c):
             entry["code"] = len(ops)
             ops.append(spec_op(c, "code"))
+        if weak_applies(c):
+            wf = [(weak_events(c["f"], c.get("dtf"), c["thr"], c["op"]), weak_events(c["o"], c.get("dto"), c["thr"], c["op"]))]
+            entry["weak"] = [len(ops)]
+            ops.append(spec_op(c, prop_ext(c), fields=wf, op="gt", thr=0.5))
+            if odd_pad(c):
+                entry["weak"].append(len(ops))
+                ops.append(spec_op(c, "code", fields=wf, op="gt", thr=0.5))
         rel = []
         if relations:
             hows = ["swap"] + rng.sample(["flip", "flipud", "transpose", "nan-to-nonevent"], 2)
@@ -524,7 +938,8 @@ def check_singles(ctx, cases, batch="single-vs-window-count", relations=True):
         nev = n_events(c, c["f"]) + n_events(c, c["o"])
         ctx.case(batch, cj, nontrivial=nev > 0)
         ctx.tag("oracle-" + ("pad" if c["pad"] else "nopad") + ("-odd" if (c["h"] % 2 or c["w"] % 2) else "-even"))
-        base_tags = {"pad": c["pad"], "op": c["op"], "odd_window": bool(c["h"] % 2 or c["w"] % 2)}
+        dtype_tags(ctx, c)
+        base_tags = dict(dtype_fail_tags(c), pad=c["pad"], op=c["op"], odd_window=bool(c["h"] % 2 or c["w"] % 2))
         try:
             v = impl_single(c)
         except Exception as ex:
@@ -536,14 +951,27 @@ def check_singles(ctx, cases, batch="single-vs-window-count", relations=True):
         is_f5 = code is not None and core.close(v, code)
         if not core.close(v, spec):
             if is_f5:
-                ctx.fail(batch, "property", F5_SITE, F5_SIG, cj, observed=v, expected=spec, tags=dict(F5_TAGS, entry="fss_2d_single_field"),
-                         theorem="fss_pad_counterexample")
+                ctx.fail(batch, "property", F5_SITE, F5_SIG, cj, observed=v, expected=spec,
+                         tags=dict(dtype_fail_tags(c), **dict(F5_TAGS, entry="fss_2d_single_field")), theorem="fss_pad_counterexample")
+            elif any(core.close(v, res[i]["single"][0]) for i in e.get("weak", [])):
+                ctx.fail(batch, "property", WEAK_SITE, WEAK_SIG, cj, observed=v, expected=spec,
+                         tags=dict(dtype_fail_tags(c), **dict(WEAK_TAGS, entry="fss_2d_single_field")))
             else:
                 ctx.fail(batch, "property", "fss_2d_single_field", "value-differs-from-window-count", cj, observed=v, expected=spec,
                          tags=base_tags, theorem="fss_nopad_eq_spec" if not c["pad"] else "fss_pad_partial")
             continue
         if not (0.0 <= v <= 1.0):
             ctx.fail(batch, "property", "fss_2d_single_field", "out-of-range", cj, observed=v, expected="[0,1]", tags=base_tags)
+        if has_dtype(c) or c.get("thrtype"):
+            # the same values stored as float64 (threshold as a Python float) give the same result
+            try:
+                v64 = impl_single(as_float64(c))
+                if not core.close_ff(v, v64):
+                    ctx.fail(batch, "property", "fss_2d_single_field", "storage-dtype-changes-result", cj, observed=v, expected=v64,
+                             tags=base_tags)
+            except Exception as ex:
+                ctx.fail(batch, "property", "fss_2d_single_field", "exception", cj, observed=core.exc_class(ex) + ": " + str(ex)[:200],
+                         expected="a value (float64 storage)", tags=base_tags)
         same = np.array_equal(np.nan_to_num(np.array(c["f"], dtype=float), nan=12345.0), np.nan_to_num(np.array(c["o"], dtype=float), nan=12345.0))
         if same and n_events(c, c["f"]) > 0 and not core.close(v, core.Fraction(1)):
             ctx.fail(batch, "property", "fss_2d_single_field", "identical-fields-not-1", cj, observed=v, expected=1, tags=base_tags)
@@ -558,7 +986,8 @@ def check_singles(ctx, cases, batch="single-vs-window-count", relations=True):
                 continue
             if "code" in r and is_f5 and core.close(v2, res[r["code"]]["single"][0]):
                 ctx.fail(batch, "property", F5_SITE, F5_SIG, cj, observed={"value": v, r["how"]: v2}, expected="equal",
-                         tags=dict(F5_TAGS, entry="fss_2d_single_field", relation=r["how"]), theorem="fss_pad_counterexample")
+                         tags=dict(dtype_fail_tags(c), **dict(F5_TAGS, entry="fss_2d_single_field", relation=r["how"])),
+                         theorem="fss_pad_counterexample")
             else:
                 ctx.fail(batch, "property", "fss_2d_single_field", "not-invariant-under-" + r["how"], cj,
                          observed={"value": v, r["how"]: v2}, expected="equal", tags=base_tags)
@@ -570,6 +999,7 @@ def check_binary_eq(ctx, mcases, batch="binary-entry-equals-thresholding"):
     for c in mcases:
         fx, ox, keep, red, groups = multi_groups(c)
         ctx.case(batch, c, nontrivial=True)
+        dtype_tags(ctx, c)
         try:
             c1 = dict(c, binary=False)
             r1 = impl_multi(c1, fx, ox)
@@ -578,13 +1008,26 @@ def check_binary_eq(ctx, mcases, batch="binary-entry-equals-thresholding"):
                 bo = xr.DataArray(OPS[c["op"]](ox.values, c["thr"]), dims=ox.dims)
             r2 = impl_multi(dict(c, binary=True), bf, bo)
         except Exception as ex:
-            ctx.fail(batch, "property", "fss_2d_binary", "exception", c, observed=core.exc_class(ex) + ": " + str(ex)[:200], expected="a value")
+            ctx.fail(batch, "property", "fss_2d_binary", "exception", c, observed=core.exc_class(ex) + ": " + str(ex)[:200], expected="a value",
+                     tags=dtype_fail_tags(c))
             continue
         a = np.asarray(r1.transpose(*keep).values, dtype=float).ravel()
         b = np.asarray(r2.transpose(*keep).values, dtype=float).ravel()
         if a.shape != b.shape or not all(core.close_ff(x, y) for x, y in zip(a, b)):
+            if weak_applies(c):
+                # F-C16b: fss_2d on the float32 field equals the binary entry point on the events of the ROUNDED threshold
+                try:
+                    wf = xr.DataArray(weak_events(fx.values, c.get("dtf"), c["thr"], c["op"]), dims=fx.dims)
+                    wo = xr.DataArray(weak_events(ox.values, c.get("dto"), c["thr"], c["op"]), dims=ox.dims)
+                    w = np.asarray(impl_multi(dict(c, binary=True), wf, wo).transpose(*keep).values, dtype=float).ravel()
+                except Exception:
+                    w = None
+                if w is not None and a.shape == w.shape and all(core.close_ff(x, y) for x, y in zip(a, w)):
+                    ctx.fail(batch, "property", WEAK_SITE, WEAK_SIG, c, observed=a.tolist(), expected=b.tolist(),
+                             tags=dict(dtype_fail_tags(c), **dict(WEAK_TAGS, entry="fss_2d")))
+                    continue
             ctx.fail(batch, "property", "fss_2d_binary", "differs-from-thresholding", c, observed=b.tolist(), expected=a.tolist(),
-                     tags={"pad": c["pad"]})
+                     tags=dict(dtype_fail_tags(c), pad=c["pad"]))
 
 
 AGG_EXAMPLE = dict(kind="multi", binary=False, H=1, W=2, h=1, w=1, pad=False, thr=0.5, op="gt", sizes={"t": 2},
@@ -592,6 +1035,106 @@ AGG_EXAMPLE = dict(kind="multi", binary=False, H=1, W=2, h=1, w=1, pad=False, th
                    fdata=[[[1.0, 1.0]], [[1.0, 0.0]]], odata=[[[1.0, 1.0]], [[0.0, 0.0]]], mode="none", req=None)
 # field 1: identical (score 1); field 2: one forecast event, no observed event (score 0): mean of scores = 1/2,
 # score of the pooled sums = 1 - 1/(2 + 3) = 4/5
+
+
+# ---- large dense fields in narrow storage: more events than the storage dtype can count (int8: > 127, uint8: > 255,
+# bool: > 1, float16: > 2048 — the integers a float16 holds exactly).  The window counts are computed from the EVENT
+# field, never in the storage dtype of the data, so the score is the one of the same values stored as float64.
+LARGE = [("int8", (12, 11)), ("int16", (9, 15)), ("bool", (7, 6)), ("float32", (12, 11)), ("int64", (12, 11)),
+         ("uint8", (17, 16)), ("float16", (46, 46))]
+F16_TAGS = {"defect": "F-C16a", "binary_storage": "float16", "check_boolean": False}
+F16_SITE = "fss_2d_binary"
+F16_SIG = "window-counts-accumulated-in-float16"
+
+
+def gen_large(rng, dt, shape, win=None, pad=None):
+    H, W = shape
+    f = np.ones((H, W))
+    o = np.ones((H, W))
+    for a in (f, o):
+        for _ in range(rng.randint(1, 4)):
+            a[rng.randrange(H), rng.randrange(W)] = 0.0
+    if win is None:
+        win = rng.choice([(H, W), (1, 1), (2, 2), (rng.randint(1, H), rng.randint(1, W)), (2 * rng.randint(1, H // 2), 2 * rng.randint(1, W // 2))])
+    c = dict(kind="large", f=f.tolist(), o=o.tolist(), thr=0.5, op="gt", h=win[0], w=win[1],
+             pad=(rng.random() < 0.5) if pad is None else pad, dt=dt)
+    if np.dtype(dt).kind == "u":
+        c["unsigned"] = True
+    return c
+
+
+def impl_large_binary(c, dt):
+    from scores.spatial import fss_2d_binary
+    f, o = store(c["f"], dt), store(c["o"], dt)
+    kw = {} if dt == "bool" else {"check_boolean": False}
+    with np.errstate(all="ignore"), warnings.catch_warnings():
+        warnings.simplefilter("ignore")
+        r = fss_2d_binary(xr.DataArray(f, dims=["y", "x"]), xr.DataArray(o, dims=["y", "x"]), window_size=(c["h"], c["w"]),
+                          spatial_dims=("".join(["y"]), "".join(["x", ""])), zero_padding=c["pad"], **kw)
+    return float(r.values)
+
+
+def check_large(ctx, cases, batch=None):
+    """0/1 fields with many events stored in a narrow dtype: fss_2d_single_field (threshold 0.5) and the binary entry
+    point on the stored 0/1 field (check_boolean=False unless bool) equal the exact window-count spec"""
+    ops, plan = [], []
+    for c in cases:
+        e = {"c": c, "spec": len(ops)}
+        ops.append(spec_op(c, prop_ext(c)))
+        if odd_pad(c):
+            e["code"] = len(ops)
+            ops.append(spec_op(c, "code"))
+        plan.append(e)
+    res = core.run_driver("C16", ops)
+    for e in plan:
+        c = e["c"]
+        dt = c["dt"]
+        b = batch or ("large-field-narrow-storage" + ("-unsigned" if c.get("unsigned") else ""))
+        cj = case_json(c)
+        ctx.case(b, cj, nontrivial=True)
+        ctx.tag("large-field:" + dt)
+        spec = res[e["spec"]]["single"][0]
+        code = res[e["code"]]["single"][0] if "code" in e else None
+        tags = dict({"dt": dt, "pad": c["pad"]}, **({"storage": "unsigned"} if c.get("unsigned") else {}))
+        runs = []
+        # (a float16 field under a float64 threshold is thresholded exactly as well, so both entry points run for every dt)
+        runs.append(("fss_2d_single_field", lambda: impl_single(dict(c, kind="single", dtf=dt, dto=dt))))
+        runs.append(("fss_2d_binary", lambda: impl_large_binary(c, dt)))
+        for site, fn in runs:
+            try:
+                v = fn()
+            except Exception as ex:
+                ctx.fail(b, "property", site, "exception", cj, observed=core.exc_class(ex) + ": " + str(ex)[:200], expected=spec,
+                         tags=tags)
+                continue
+            if core.close(v, spec):
+                continue
+            if code is not None and core.close(v, code):
+                ctx.fail(b, "property", F5_SITE, F5_SIG, cj, observed=v, expected=spec, tags=dict(tags, **dict(F5_TAGS, entry=site)),
+                         theorem="fss_pad_counterexample")
+                continue
+            # known defect F-C16a: ONLY the binary entry point on a float16 0/1 field with more than 2048 events, and only
+            # when the same field stored as bool gives the expected value (resp. the F5 value for odd padded windows)
+            if site == "fss_2d_binary" and dt == "float16" and max(np.sum(c["f"]), np.sum(c["o"])) > 2048:
+                try:
+                    vb = impl_large_binary(c, "bool")
+                except Exception:
+                    vb = None
+                if vb is not None and (core.close(vb, spec) or (code is not None and core.close(vb, code))):
+                    ctx.fail(b, "property", F16_SITE, F16_SIG, cj, observed=v, expected=spec, tags=dict(tags, **F16_TAGS))
+                    continue
+            ctx.fail(b, "property", site, "value-differs-from-window-count", cj, observed=v, expected=spec, tags=tags)
+
+
+def large_cases(ctx, boost=False):
+    rng = ctx.rng
+    out = []
+    for dt, shape in LARGE:
+        big = shape[0] * shape[1] > 1000
+        out.append(gen_large(rng, dt, shape, win=shape, pad=False))      # one window = the whole field: count = #events
+        for _ in range((1 if big else 3) * (2 if (boost or ctx.thorough) else 1)):
+            out.append(gen_large(rng, dt, shape))
+    return out
 
 
 def oracle(ctx, boost):
@@ -605,6 +1148,21 @@ def oracle(ctx, boost):
     mcases = [AGG_EXAMPLE] + [gen_multi(ctx.rng, binary=(i % 4 == 3)) for i in range(ctx.n(150, 1200) * (3 if boost else 1))]
     run_multi(ctx, mcases, "multi-vs-pooled-window-count", "property")
     check_binary_eq(ctx, [gen_multi(ctx.rng) for _ in range(ctx.n(60, 500))])
+    # ---- storage dtypes of the fields
+    check_singles(ctx, dtype_stream(ctx, SIGNED_DT, ctx.n(1, 2), ctx.n(250, 2500), boost=boost), batch="single-vs-window-count-dtype")
+    check_singles(ctx, dtype_exhaustive(ctx, SIGNED_DT), batch="single-vs-window-count-dtype-exhaustive", relations=ctx.thorough)
+    check_singles(ctx, dtype_stream(ctx, UNSIGNED_DT, 1, ctx.n(80, 800), unsigned=True, boost=boost)
+                  + dtype_exhaustive(ctx, UNSIGNED_DT, unsigned=True), batch="single-vs-window-count-unsigned")
+    k = 3 if boost else 1
+    mcases = [gen_multi(ctx.rng, binary=(i % 4 == 3), dt=SIGNED_DT[i % len(SIGNED_DT)]) for i in range(ctx.n(120, 1200) * k)]
+    run_multi(ctx, mcases, "multi-vs-pooled-window-count-dtype", "property")
+    mcases = [gen_multi(ctx.rng, binary=(i % 4 == 3), dt=UNSIGNED_DT[i % 2], unsigned=True) for i in range(ctx.n(40, 400) * k)]
+    run_multi(ctx, mcases, "multi-vs-pooled-window-count-unsigned", "property")
+    check_binary_eq(ctx, [gen_multi(ctx.rng, dt=SIGNED_DT[i % len(SIGNED_DT)]) for i in range(ctx.n(60, 500))],
+                    batch="binary-entry-equals-thresholding-dtype")
+    check_binary_eq(ctx, [gen_multi(ctx.rng, dt=UNSIGNED_DT[i % 2], unsigned=True) for i in range(ctx.n(20, 200))],
+                    batch="binary-entry-equals-thresholding-unsigned")
+    check_large(ctx, large_cases(ctx, boost))
 
 
 def replay(ctx, payload):
@@ -618,8 +1176,14 @@ def replay(ctx, payload):
         for seed in range(4):     # the relations draw two of four transformations: cover all of them
             sub.rng.seed(seed)
             check_singles(sub, [c])
+    elif case.get("kind") == "large":
+        c = dict(case)
+        c["f"] = arr(case["f"]).tolist()
+        c["o"] = arr(case["o"]).tolist()
+        c["thr"] = float(core.parse_fl(case["thr"])) if isinstance(case["thr"], str) else float(case["thr"])
+        check_large(sub, [c])
     elif case.get("kind") == "multi":
-        if payload.get("batch") == "binary-entry-equals-thresholding":
+        if str(payload.get("batch", "")).startswith("binary-entry-equals-thresholding"):
             check_binary_eq(sub, [case])
         else:
             run_multi(sub, [case], "replay", "property")
